@@ -38,13 +38,25 @@ type c07case struct {
 	Shape  string // call-site shape / access path
 	Defer  bool   // args: the call is deferred
 	Hold   bool   // args: an argument holds a script closure other than a top-level function literal
+	FuncV  bool   // args, script calls script: the callee is a function value (called through reflect)
 	Ts     []*c07t
 	Sent   []*cval
-	Old    *cval // var: the value the variable held when the script was compiled (host variables)
+	Old    *cval    // var: the value the variable held when the script was compiled (host variables)
+	Prev   *cval    // var: the value held just before a write
+	CoqK   string   // results: placement term; var: vkind term
+	FullTs []*c07t  // results: all result types (the blank shape observes a suffix)
+	Full   []*cval  // results: all results returned
+	Meth   *c07meth // host-method cases
 	Impl   []*cval
 	Ref    []*cval
 	Region string
 	Input  map[string]any
+}
+
+type c07meth struct {
+	form   string
+	vp     int // position of the variadic parameter, -1 = none
+	np, na int // declared parameters, arguments at the call site
 }
 
 type c07h struct {
@@ -58,6 +70,7 @@ type c07job struct {
 	run   func(j *c07job)
 	cases []*c07case
 	other []refMismatch // reference-only comparisons (no Coq case)
+	wraps []*c07wrapCase
 	count map[string]int
 	evals int
 	refs  int
@@ -614,7 +627,11 @@ func (h *c07h) runA(j *c07job, a *c07A, region string) {
 	default:
 		rts, exp = sig.Out, expRes
 	}
-	cr := &c07case{Kind: "results", Dir: "H2S", Sig: sig, Shape: a.shape, Ts: rts, Sent: exp, Ref: c07nativeList(exp, env), Region: region, Input: in}
+	cr := &c07case{Kind: "results", Dir: "H2S", Sig: sig, Shape: a.shape, Ts: rts, Sent: exp, Ref: c07nativeList(exp, env), Region: region, Input: in,
+		CoqK: map[string]string{"define": "PDefine", "funcvar": "PDefine", "assign": "PAssign", "blank": "PBlank", "return": "PReturn"}[a.shape]}
+	if a.shape == "blank" {
+		cr.FullTs, cr.Full = sig.Out, expRes
+	}
 	switch {
 	case run.failed != "":
 		cr.Impl = c07badList(rts, run.failed)
@@ -692,7 +709,56 @@ func (b *c07B) source(g *c07reg) string {
 	return c07prelude + g.source() + s.String()
 }
 
-func (h *c07h) genB(r *rng) *c07B {
+// anySliceArg: a listed variadic argument of type []interface{} for ...interface{} — yaegi's
+// in-script call takes it for a spread slice (region variadic-slice-arg).
+func c07anySliceArg(mode string, args []*cval) bool {
+	if mode != "ind" {
+		return false
+	}
+	last := args[len(args)-1]
+	if last.T.Elem.K != ckAny {
+		return false
+	}
+	for _, e := range last.L {
+		if !e.Nil && e.Dyn.T.K == ckSlice && e.Dyn.T.Elem.K == ckAny {
+			return true
+		}
+	}
+	return false
+}
+
+func (h *c07h) genB(r *rng, region string) *c07B {
+	for {
+		b := h.genB1(r, region)
+		if region == "" && c07anySliceArg(b.mode, b.args) {
+			continue
+		}
+		return b
+	}
+}
+
+func (h *c07h) genB1(r *rng, region string) *c07B {
+	if region == "variadic-slice-arg" {
+		vg := &c07vgen{r: r}
+		sl := c07slice(ctAny)
+		var xs *cval
+		for xs == nil || xs.Nil {
+			xs = vg.val(sl, false)
+		}
+		other := vg.val(ctAny, false)
+		elems := []*cval{{T: ctAny, Dyn: xs}}
+		if r.bool() {
+			elems = append(elems, other)
+		}
+		b := &c07B{sig: c07func([]*c07t{ctInt, sl}, []*c07t{ctInt}, true), mode: "ind", path: r.pick([]string{"eval", "evalpkg", "symbols", "globalvar", "iface"})}
+		fv := vg.val(b.sig, false)
+		for fv.Nil {
+			fv = vg.val(b.sig, false)
+		}
+		b.spec = fv.Fn
+		b.args = []*cval{vg.val(ctInt, false), c07fill(&cval{T: sl, L: elems})}
+		return b
+	}
 	tg := &c07tgen{r: r}
 	vg := &c07vgen{r: r}
 	b := &c07B{sig: tg.signature()}
@@ -805,8 +871,8 @@ func (h *c07h) runB(j *c07job, b *c07B, region string) {
 	ref.eval("Ref()", h.timeout)
 	rrec := ref.evalString("Rec", h.timeout)
 	rout := ref.evalString("Out", h.timeout)
-	sa := &c07case{Kind: "args", Dir: "S2S", Sig: sig, Mode: b.mode, Shape: b.path, Ts: sig.In, Sent: act, Ref: bound, Region: region, Input: in}
-	sr := &c07case{Kind: "results", Dir: "S2S", Sig: sig, Shape: "define", Ts: sig.Out, Region: region, Input: in}
+	sa := &c07case{Kind: "args", Dir: "S2S", Sig: sig, Mode: b.mode, Shape: b.path, FuncV: b.path == "closure", Ts: sig.In, Sent: act, Ref: bound, Region: region, Input: in}
+	sr := &c07case{Kind: "results", Dir: "S2S", Sig: sig, Shape: "define", Ts: sig.Out, Region: region, Input: in, CoqK: "PDefine"}
 	if ref.failed != "" {
 		sa.Impl = c07badList(sig.In, ref.failed)
 		sr.Impl = c07badList(sig.Out, ref.failed)
@@ -861,8 +927,12 @@ func runC07(args []string) error {
 		}
 	}
 	for k := 0; k < nB; k++ {
-		b := h.genB(root.fork())
+		b := h.genB(root.fork(), "")
 		jobs = append(jobs, &c07job{run: func(j *c07job) { h.runB(j, b, "") }})
+	}
+	for k := 0; k < nReg; k++ {
+		b := h.genB(root.fork(), "variadic-slice-arg")
+		jobs = append(jobs, &c07job{run: func(j *c07job) { h.runB(j, b, "variadic-slice-arg") }})
 	}
 	h.extraJobs(root, *tier, &jobs)
 	parallelMap(len(jobs), 0, func(i int) { jobs[i].run(jobs[i]) })
